@@ -170,7 +170,12 @@ def reader_resets_queue():
         if isinstance(st, ast.Assign) and is_global:
             if any(isinstance(t, ast.Name) and t.id == "reading_queue" for t in st.targets):
                 v = st.value
-                empty_call = isinstance(v, ast.Call) and not v.args and not v.keywords and ast.unparse(v.func) in ("deque", "list", "collections.deque")
+                empty_call = (
+                    isinstance(v, ast.Call)
+                    and not v.keywords
+                    and ast.unparse(v.func) in ("deque", "list", "collections.deque")
+                    and (not v.args or (len(v.args) == 1 and isinstance(v.args[0], (ast.List, ast.Tuple)) and not v.args[0].elts))
+                )
                 empty_list = isinstance(v, ast.List) and not v.elts
                 if empty_call or empty_list:
                     return True
